@@ -534,10 +534,11 @@ def rule_dead(R):
     from ..engine import Run
     tmp = Run("C11", R.f, R.cfg)
     tmp.rule("fatal", c11.rule_fatal)
+    tmp.rule("entry", c11.rule_entry)       # every operation tests the latch before anything else
     n = 0
     for o in tmp.obs:
         parts = o.key.split("/", 2)
-        if len(parts) == 3 and parts[1].startswith("fatal"):
+        if len(parts) == 3 and (parts[1].startswith("fatal") or parts[1] in ("entry", "dead-branch", "dead-value", "canpub")):
             n += 1
             R.ob("dead/%s/%s" % (parts[1], parts[2]), o.ok, o.msg, where=o.where, detail=o.detail)
         elif "ANCHOR-LOST" in o.key:
